@@ -1550,6 +1550,19 @@ impl Interp {
         Ok(())
     }
 
+    /// (entry before the gap, entry after the gap) of the live cursor, from the model
+    pub fn cursor_neighbors(&self) -> Option<(Option<Val>, Option<Val>)> {
+        let cm = self.cur_model.as_ref()?;
+        let name = self.tabs[cm.slot].as_ref()?.name();
+        let keys: Vec<&Val> = self.working.as_ref()?.m.tables.get(&name)?.t().keys().collect();
+        let prev = if cm.pos > 0 { keys.get(cm.pos - 1).map(|k| (*k).clone()) } else { None };
+        let next = keys.get(cm.pos).map(|k| (*k).clone());
+        Some((prev, next))
+    }
+    pub fn cursor_slot(&self) -> Option<u8> {
+        self.cur_model.as_ref().map(|c| c.slot as u8)
+    }
+
     pub fn key_type_of_slot(&self, slot: u8) -> Option<T> {
         self.slot_spec(slot).map(|s| s.k)
     }
